@@ -72,7 +72,11 @@ func main() {
 		props.LeakProbe(os.Args[2], n, k)
 	case "ilvdet":
 		n, _ := strconv.Atoi(os.Args[3])
-		props.C14Determinism(os.Args[2], n, nil)
+		var prefix []int
+		if len(os.Args) > 4 {
+			prefix = props.DecodeChoices(os.Args[4])
+		}
+		props.C14Determinism(os.Args[2], n, prefix)
 	case "racepass":
 		n, _ := strconv.Atoi(os.Args[2])
 		os.Exit(props.RacePassMain(n))
@@ -247,6 +251,20 @@ func cmdCheck(args []string) int {
 			coverage["rule"] = "fault/crash/malformed-input cases enumerated on top of every explored state; distinct = distinct (case class, outcome class) pairs"
 		}
 		_ = vacuous
+		if def.Also != nil {
+			cr := def.Also(*tier)
+			found = append(found, cr.Violations...)
+			harness = append(harness, cr.Harness...)
+			for k, x := range cr.Coverage {
+				if k == "exhaustive" {
+					if b, ok := x.(bool); ok && !b {
+						coverage["exhaustive"] = false
+					}
+					continue
+				}
+				coverage["interleaving_"+k] = x
+			}
+		}
 	}
 	// classify findings against the committed known-findings file
 	known := loadKnown()
